@@ -14,7 +14,7 @@ class C05(Prop):
     assumptions = ["random.choices(population, weights, k) draws i.i.d. in proportion to the weights and random.randrange is uniform "
                    "(stdlib; only the arguments handed to them are checked)"]
     model_scope = "modelled: JointDegree.handshaking_lemma and the call made by sample_jds_from_jdd (joint_degree.py)"
-    budgets = {"quick": 400, "thorough": 6000}
+    budgets = {"quick": 400, "thorough": 30000}
     search_budget = {"quick": 1500, "thorough": 10000}
 
     def gen(self, rng, i, tier):
